@@ -50,7 +50,8 @@ CONSTANTS
     PrintAt,    \* 0: never; else print the history when it has this length or is terminal
     SearchBug,  \* sensitivity: separator searched only in the newest chunk
     CloseBug,   \* sensitivity: CLOSE tears the channel down while data is still held
-    ResumeFix   \* TRUE: readuntil resumes reading when it stops at a marker (repaired code)
+    ResumeFix,  \* TRUE: readuntil resumes reading when it stops at a marker (repaired code)
+    CollectFix  \* TRUE: collect_output() accounts for what it takes and resumes reading
 
 AllMarks == {"!sig", "!brk", "!win", "!seof"}
 Units    == {"a", "b", "n"}
@@ -195,6 +196,9 @@ Allowed(cl, r, sn) ==
                 \* a marker, at EOF, or when the buffer limit is reached (the
                 \* designed escape from the flow-control deadlock)
                 (term \/ sn.full) /\ r = part
+      [] cl.k = "collect" ->
+           \* everything that has entered the streams and is unread
+           r.v = sn.B /\ r.v2 = sn.B2
       [] cl.k = "wait" ->
            \* ExitImpliesAllOutput
            /\ r.v = sn.B /\ r.v2 = sn.B2
@@ -257,7 +261,10 @@ OnPacket(cc, p) ==
                                          !.eff[p.dt] = @ \o p.u], p.dt)
       [] p.t = "eof"  -> FlushC([cc EXCEPT !.ceof = "pending"])
       [] p.t = "exit" -> [cc EXCEPT !.exit = p.u[1]]
-      [] p.t = "close" -> FlushC([cc EXCEPT !.ccl = "pending"])
+      \* _process_close overwrites the receive state: an EOF that was still
+      \* waiting for held data is from now on reported by the clean-up
+      [] p.t = "close" -> FlushC([cc EXCEPT !.ccl = "pending",
+                                            !.ceof = IF @ = "pending" THEN "no" ELSE @])
 
 RECURSIVE ProcessAll(_, _)
 ProcessAll(cc, ps) == IF ps = <<>> THEN cc ELSE ProcessAll(OnPacket(cc, Head(ps)), Tail(ps))
@@ -367,6 +374,25 @@ WaitStep(cc) ==
                        !.fin = Append(@, <<"w", "wait", o, e, c1.exit>>),
                        !.bad = @ \/ ~Allowed(c1.call["w"], r, sn)]
     ELSE c1
+
+\* process.py collect_output(): synchronous; stdout is taken first, then
+\* stderr (in the repaired code each step gives the space back and resumes)
+DoCollect(cc) ==
+    LET unread(x, d) == IF d \notin DTs THEN <<>>
+                        ELSE SubSeq(x.eff[d], x.pos[d] + 1, Len(x.eff[d]))
+        hasErr == "err" \in DTs
+        o  == Flat(cc.buf["out"])
+        c1 == [cc EXCEPT !.buf["out"] = <<>>, !.pos["out"] = Len(cc.eff["out"])]
+        c2 == IF CollectFix THEN Resume([c1 EXCEPT !.len = @ - Len(o)]) ELSE c1
+        e  == IF hasErr THEN Flat(c2.buf["err"]) ELSE <<>>
+        c3 == IF hasErr
+              THEN [c2 EXCEPT !.buf["err"] = <<>>, !.pos["err"] = Len(c2.eff["err"])]
+              ELSE c2
+        c4 == IF CollectFix THEN Resume([c3 EXCEPT !.len = @ - Len(e)]) ELSE c3
+        r  == [k |-> "collect", v |-> o, v2 |-> e]
+        sn == [B |-> unread(cc, "out"), B2 |-> unread(c2, "err")]
+    IN [c4 EXCEPT !.fin = Append(@, <<"w", "collect", o, e, "-">>),
+                  !.bad = @ \/ ~Allowed([NoCall EXCEPT !.k = "collect"], r, sn)]
 
 RunOne(cc, d) ==
     IF d = "cleanup" THEN Cleanup(cc)
@@ -503,6 +529,15 @@ StartWait ==
     /\ ncalls' = IF MaxCalls > 0 THEN ncalls + 1 ELSE ncalls
     /\ UNCHANGED <<S, sent, eofSent, exitSent, closeSent, wire>>
 
+StartCollect ==
+    /\ Proc /\ CallOK /\ NoActiveCall
+    /\ \A d \in DTs : ~c.tgt[d].on
+    /\ LET c2 == RunReaders(DoCollect(c)) IN
+         /\ Settle(c2)
+         /\ hist' = Hist(<<"call", "w", "collect", 0, "-", c2.fin>>)
+    /\ ncalls' = IF MaxCalls > 0 THEN ncalls + 1 ELSE ncalls
+    /\ UNCHANGED <<S, sent, eofSent, exitSent, closeSent, wire>>
+
 Redirect(d) ==
     /\ Redir /\ Idle /\ NoActiveCall /\ ~c.tgt[d].on
     /\ LET c2 == RunReaders(DoRedirect(c, d)) IN
@@ -531,6 +566,7 @@ Next ==
     \/ Run
     \/ \E d \in DTs, cl \in CallKinds : StartCall(d, cl)
     \/ StartWait
+    \/ StartCollect
     \/ \E d \in DTs : Redirect(d)
 
 Spec == Init /\ [][Next]_vars
